@@ -1,5 +1,9 @@
 import Prism.Proofs.C19
+import Prism.Proofs.C19Specific
 
 #print axioms Prism.C19_auto
 #print axioms Prism.C19_none
 #print axioms Prism.C19_matches_specific
+#print axioms Prism.C19_matches_jpeg
+#print axioms Prism.C19_matches_webp
+#print axioms Prism.C19_all_fail
